@@ -29,5 +29,11 @@ for part in ("07_ledger.md", "08_limits.md", "09_history.md", "10_deviations.md"
         out.append(open(q).read().strip() + "\n\n" + "-" * 99 + "\n\n")
 out.append(open(os.path.join(ROOT, "docs", "design_parts", "11_seeded_head.md")).read().strip() + "\n\n")
 out.append(subprocess.run([os.path.join(ROOT, "tools", "seeded_table.py")], stdout=subprocess.PIPE).stdout.decode())
+out.append("\n" + "-" * 99 + "\n\n" + open(os.path.join(ROOT, "docs", "design_parts", "12_harmless.md")).read().strip() + "\n\n")
+out.append(subprocess.run([os.path.join(ROOT, "tools", "harmless_table.py")], stdout=subprocess.PIPE).stdout.decode())
+for extra in ("13_audits.md",):
+    q = os.path.join(ROOT, "docs", "design_parts", extra)
+    if os.path.exists(q):
+        out.append("\n" + "-" * 99 + "\n\n" + open(q).read().strip() + "\n")
 open(os.path.join(ROOT, "DESIGN.md"), "w").write("".join(out))
 print("DESIGN.md assembled:", sum(len(x) for x in out), "bytes")
